@@ -446,7 +446,25 @@ def _find(pattern, text):
     return m.group(1) if m else None
 
 
-def site_tokens(vals):
+class ReprFloat(float):
+    """a float subclass with its own repr/str (what numpy.float64 is under numpy 2): the library renders the DOUBLE"""
+    def __repr__(self):
+        return 'np.float64(%s)' % float.__repr__(self)
+    __str__ = __repr__
+
+
+def _as_int(d):
+    if math.isfinite(d) and d == int(d) and not (d == 0 and math.copysign(1.0, d) < 0):
+        return int(d)
+    return d
+
+
+# how a sample / exemplar value is GIVEN to the library: a float, a Python int (custom collectors, parsed documents), a float
+# subclass with its own repr
+VALUE_FORMS = [('float', lambda d: d), ('int', _as_int), ('float-subclass', ReprFloat)]
+
+
+def site_tokens(vals, give=lambda d: d):
     """Every place the library renders a float, for the given doubles: returns list of (site, double, token).
     Each site is exercised three ways: one value per family, MANY different values inside one family (one label set
     each), and through the quoted-name (UTF-8) branch of the sample line."""
@@ -460,13 +478,13 @@ def site_tokens(vals):
     fams = []
     for i, d in enumerate(vals):
         g = core.GaugeMetricFamily('g%d' % i, 'h')
-        g.add_metric([], d)
+        g.add_metric([], give(d))
         c = core.CounterMetricFamily('c%d' % i, 'h')
-        c.add_metric([], 1.0, exemplar=Exemplar({'a': 'b'}, d))
+        c.add_metric([], 1.0, exemplar=Exemplar({'a': 'b'}, give(d)))
         c2 = core.CounterMetricFamily('d%d' % i, 'h')
-        c2.add_metric([], 1.0, exemplar=Exemplar({'a': 'b'}, d, 1.5))
+        c2.add_metric([], 1.0, exemplar=Exemplar({'a': 'b'}, give(d), 1.5))
         u = core.GaugeMetricFamily('u.g%d' % i, 'h')
-        u.add_metric([], d)
+        u.add_metric([], give(d))
         fams += [g, c, c2, u]
     # the same sites with every value inside ONE family (a rendering made once per family would show here)
     gl = core.GaugeMetricFamily('gl', 'h', labels=['i'])
@@ -474,14 +492,14 @@ def site_tokens(vals):
     cl = core.CounterMetricFamily('cl', 'h', labels=['i'])
     dl = core.CounterMetricFamily('dl', 'h', labels=['i'])
     for i, d in enumerate(vals):
-        gl.add_metric([str(i)], d)
-        ul.add_metric([str(i)], d)
-        cl.add_metric([str(i)], 1.0, exemplar=Exemplar({'a': 'b'}, d))
-        dl.add_metric([str(i)], 1.0, exemplar=Exemplar({'a': 'b'}, d, 1.5))
+        gl.add_metric([str(i)], give(d))
+        ul.add_metric([str(i)], give(d))
+        cl.add_metric([str(i)], 1.0, exemplar=Exemplar({'a': 'b'}, give(d)))
+        dl.add_metric([str(i)], 1.0, exemplar=Exemplar({'a': 'b'}, give(d), 1.5))
     hx = core.HistogramMetricFamily('hx', 'h', labels=['p'])
     for p in ('x', 'y'):
         seq = vals if p == 'x' else list(reversed(vals))
-        hx.add_metric([p], [('%d.0' % i, float(i), Exemplar({'a': 'b'}, d)) for i, d in enumerate(seq)]
+        hx.add_metric([p], [('%d.0' % i, float(i), Exemplar({'a': 'b'}, give(d))) for i, d in enumerate(seq)]
                       + [('+Inf', float(len(seq)))], 1.0)
     fams += [gl, ul, cl, dl, hx]
 
@@ -1055,15 +1073,16 @@ def site_check(seed=0, n_random=40):
 
     def tokens():
         out = []
-        for vals in (SITE_VALUES, list(reversed(SITE_VALUES))):
-            for site, d, tok in site_tokens(vals):
-                if tok is None:
-                    out.append('%s: rendering of %r not found in the output' % (site, d))
-                    continue
-                r = (_chk_le(d, tok, 'given as the float %r, exposed in-process' % d) if site == 'histogram-le'
-                     else _chk(bits(d), tok))
-                if r:
-                    out.append('%s: %s' % (site, r))
+        for form, give in VALUE_FORMS:
+            for vals in (SITE_VALUES, list(reversed(SITE_VALUES))):
+                for site, d, tok in site_tokens(vals, give):
+                    if tok is None:
+                        out.append('%s: rendering of %r (given as %s) not found in the output' % (site, d, form))
+                        continue
+                    r = (_chk_le(d, tok, 'given as the float %r, exposed in-process' % d) if site == 'histogram-le'
+                         else _chk(bits(d), tok))
+                    if r:
+                        out.append('%s (value given as %s): %s' % (site, form, r))
         return out
     LE_OF.clear()
     del HISTS[:]
@@ -1080,7 +1099,13 @@ def impl(b):
     from prometheus_client.utils import floatToGoString
     d = frombits(b)
     try:
-        return floatToGoString(d)
+        out = floatToGoString(d)
+        # the same double given as an int or as a float subclass with its own repr renders the same
+        for form, give in VALUE_FORMS[1:]:
+            o2 = floatToGoString(give(d))
+            if o2 != out:
+                return 'FORM:%s:%s' % (form, o2)
+        return out
     except Exception as e:     # the function is total on floats
         return 'EXC:' + type(e).__name__
 
@@ -1116,6 +1141,8 @@ def direct(b, out):
     d = frombits(b)
     if out.startswith('EXC:'):
         return 'floatToGoString(%r) raised %s' % (d, out[4:])
+    if out.startswith('FORM:'):
+        return 'floatToGoString renders the double %r differently when it is given as %s' % (d, out[5:])
     if math.isnan(d):
         return None if out == 'NaN' else 'NaN rendered as %r' % out
     if d == math.inf:
